@@ -173,6 +173,41 @@ func c03Unit(name string, lvl int) core.Unit {
 					}
 				}
 			}
+			// github: calendar-shaped tuples incl. day numbers that do not exist in the month
+			// (31 February): still plain integer tuples, compared among themselves
+			if name == "github" && k == 3 {
+				var cal [][]string
+				var cv []eco.Ver
+				for _, y := range []string{"1000", "2023", "2024", "9999"} {
+					for _, m := range []string{"1", "2", "3", "4", "9", "11", "12"} {
+						for _, d := range []string{"1", "2", "27", "28", "29", "30", "31"} {
+							t := []string{y, m, d}
+							v, err := eco.SafeParse(e, tupleStr(t))
+							r.Add("parses", 1)
+							if err != nil {
+								r.AddScope(name, "calendar_tuple_rejected", 1)
+								continue
+							}
+							cal, cv = append(cal, t), append(cv, v)
+						}
+					}
+				}
+				r.Add("states", int64(len(cal)))
+				for i := range cal {
+					for j := range cal {
+						want := lexCmp(cal[i], cal[j])
+						got, p := eco.SafeCompare(cv[i], cv[j])
+						r.Add("evaluations", 1)
+						if want != 0 {
+							r.Add("nontrivial", 1)
+						}
+						if p != nil || got != want {
+							r.Violate(core.Violation{Property: "C03", Scope: name, Kind: "tuple-order",
+								Inputs: []string{tupleStr(cal[i]), tupleStr(cal[j])}, Expected: fmt.Sprintf("Compare=%d (integer tuples)", want), Got: fmt.Sprintf("Compare=%d panic=%v", got, p != nil)})
+						}
+					}
+				}
+			}
 			// markers
 			ms := c03Markers[name]
 			mvals := []string{"0", "1", "9", "10"}
@@ -270,6 +305,6 @@ func init() {
 			}
 		},
 		Rule:        "per ecosystem and documented arity k: every k-tuple over the boundary set (full set for small k, a stated subset for larger k) must parse, and every ordered pair of tuples of the same arity must compare as the integer tuples; every (tuple over {0,1,9,10}, marker spelling) the parser accepts must compare below (pre) / above (post) its unmarked tuple, in both argument orders. distinct_nontrivial = pairs of different tuples + all marker comparisons.",
-		Assumptions: []string{"'plus random values' of the quantifier is replaced by the deterministic boundary set", "marker direction tables are written from each ecosystem's documentation; spellings the parser rejects are skipped (counted in per_scope)", "github date-shaped tuples (4-digit first component) are compared only among themselves"},
+		Assumptions: []string{"'plus random values' of the quantifier is replaced by the deterministic boundary set", "marker direction tables are written from each ecosystem's documentation; spellings the parser rejects are skipped (counted in per_scope)", "github date-shaped tuples (4-digit first component) are compared only among themselves; a calendar block (4 years x 7 months x days 1,2,27-31, incl. days the month does not have) is added for them"},
 	})
 }
